@@ -1,3 +1,4 @@
+(* requires: Time *)
 open Conv
 
 (* A tiny JSON-number reader for the time_json probe: the case generator only
@@ -45,3 +46,5 @@ let run (t : string list) : string =
         | None -> "N"
       end
   | _ -> "UNKNOWN_PROBE"
+
+let init () = Registry.register "time_" run
